@@ -324,6 +324,12 @@ def run(scenario, params, tape, detail=False):
             sent_hashed = want_h
             if hk != want_h:
                 viol.append(("C14.rt", "hashed_tclk", f"{tag}: hashed TCLK read back as {hk!r}, written {want_h!r}"))
+        else:
+            # v4 has no hashed trust-centre link key: whatever hashed form the read reports must be one that was written, never one made up
+            # (a backup claiming the plain link key as its 'hashed' form is restored as such on a v5+ stick)
+            hk = (net.stack_specific.get("ezsp") or {}).get("hashed_tclk")
+            if hk is not None and hk != f["hashed_hex"]:
+                viol.append(("C14.rt", "hashed_tclk", f"{tag}: hashed TCLK read back as {hk!r} from a v4 NCP that does not use one (written {f['hashed_hex']!r})"))
         # link keys (up to the configured table size)
         cap_n = st["ktsize_configured"]
         if st["ncp_after_write"]["ktsize"] < cap_n:
